@@ -330,6 +330,16 @@ pub fn check(ctx: &mut Ctx, case: &Case) -> Result<(), String> {
                 let uv_flag = ad.flags & UV != 0;
                 let Some(results) = out.and_then(|o| o.results.as_ref()) else {
                     ctx.class("assert/without-results");
+                    // inputs that apply to the credential used, on a credential that holds the secret this ceremony
+                    // needs: the statement leaves "a result" or "an error", not a silent success without one
+                    let applies = eff.as_ref().is_some_and(|e| {
+                        e.eval.is_some() || e.by_cred.as_ref().is_some_and(|m| m.iter().any(|(k, _)| matches!(k, KeySel::Cred(_) | KeySel::CredStdB64(_)) && { let s = key_string(k, n); s == b64url(&used.id) || s == crate::model::util::b64std_padded(&used.id) }))
+                    });
+                    let has_secret = if uv_flag { used.hmac_uv.is_some() } else { used.hmac_no_uv.is_some() };
+                    ctx.class(&format!("assert/without-results/inputs-apply={applies}/credential-has-the-secret={has_secret}"));
+                    if applies && has_secret {
+                        return Err(format!("the assertion succeeded without a PRF result although inputs apply to the credential used and it holds the {} secret", if uv_flag { "verification-gated" } else { "non-gated" }));
+                    }
                     return Ok(());
                 };
                 let e = eff.ok_or("PRF results without a PRF request")?;
